@@ -119,16 +119,32 @@ def _helper_call(cls, file, e):
     if isinstance(e, ast.Call) and isinstance(e.func, ast.Attribute) and isinstance(e.func.value, ast.Name) \
             and e.func.value.id == "self" and not e.keywords:
         name = e.func.attr
-        cands = [n for n in cls.body if isinstance(n, ast.FunctionDef) and (n.name == name or "_" + cls.name + n.name == name)
-                 and not n.decorator_list]
+        cands = [n for n in cls.body if isinstance(n, ast.FunctionDef) and (n.name == name or "_" + cls.name + n.name == name)]
         if len(cands) != 1:
             return None
         fn = cands[0]
-        params = [a.arg for a in fn.args.args][1:]
+        decos = [ast.unparse(d) for d in fn.decorator_list]
+        if decos not in ([], ["staticmethod"]):
+            return None
+        params = [a.arg for a in fn.args.args][(0 if decos else 1):]
         if fn.args.vararg or fn.args.kwarg or fn.args.kwonlyargs or fn.args.defaults or len(params) != len(e.args):
             raise TranslateError(file, e, "helper call arity")
         return fn, dict(zip(params, e.args))
     return None
+
+
+def _inlined_body(cls, file, fn):
+    """the body of a method, with a body that is just `return self.<private helper>(args)` replaced by the helper's body
+    (parameters substituted by the argument expressions), repeatedly"""
+    body = _body(fn)
+    depth = 0
+    while len(body) == 1 and isinstance(body[0], ast.Return) and _helper_call(cls, file, body[0].value):
+        helper, mapping = _helper_call(cls, file, body[0].value)
+        body = _subst_params(file, _body(helper), mapping)
+        depth += 1
+        if depth > 4:
+            raise TranslateError(file, fn, "helper inlining too deep")
+    return body
 
 
 def _subst_params(file, stmts, mapping):
@@ -273,7 +289,7 @@ ATTRS = ("xname", "yname", "xunit", "yunit")
 
 def label_expr(cls, name):
     fn = _method(cls, PL, name)
-    body = _body(fn)
+    body = _inlined_body(cls, PL, fn)
     if not (len(body) == 1 and isinstance(body[0], ast.Return)):
         raise TranslateError(PL, fn, "{}: expected a single return".format(name))
 
@@ -290,14 +306,69 @@ def label_expr(cls, name):
             return "(if nonempty {} then {} else {})".format(e.test.attr, tr(e.body), tr(e.orelse))
         if isinstance(e, ast.Call) and isinstance(e.func, ast.Attribute) and e.func.attr == "format" \
                 and isinstance(e.func.value, ast.Constant) and isinstance(e.func.value.value, str) \
-                and len(e.args) == 1 and not e.keywords:
+                and len(e.args) >= 1 and not e.keywords:
             fmt = e.func.value.value
-            if fmt.count("{}") != 1 or "{" in fmt.replace("{}", "") or "}" in fmt.replace("{}", ""):
-                raise TranslateError(PL, e, "{}: format string is not of the form prefix{{}}suffix".format(name))
-            pre, suf = fmt.split("{}")
-            return "(format1 {} {} {})".format(_text(pre), _text(suf), tr(e.args[0]))
+            if fmt.count("{}") != len(e.args) or "{" in fmt.replace("{}", "") or "}" in fmt.replace("{}", ""):
+                raise TranslateError(PL, e, "{}: format string is not literal text with one {{}} per argument".format(name))
+            pieces = fmt.split("{}")
+            if len(e.args) == 1:
+                return "(format1 {} {} {})".format(_text(pieces[0]), _text(pieces[1]), tr(e.args[0]))
+            out = _text(pieces[-1])                     # "p0{}p1{}p2".format(a, b) = p0 ++ a ++ p1 ++ b ++ p2
+            for piece, arg in zip(reversed(pieces[:-1]), reversed(e.args)):
+                out = "(app {} (app {} {}))".format(_text(piece), tr(arg), out)
+            return out
         raise TranslateError(PL, e, "{}: expression outside the label subset".format(name))
     return tr(body[0].value)
+
+
+def _name_source_loop(body, name, lits, info_key, err):
+    """the same look-up written with a local and a loop:
+         v = self._plot_info[lit.K]
+         if v: return v
+         for obj in self._objects:
+             if isinstance(obj, XYObjectOnPlot) and <obj.A | getattr(obj, "A")>: return <obj.A | getattr(obj, "A")>
+         return """""
+    a, i, loop, r = body
+    if not (isinstance(a, ast.Assign) and len(a.targets) == 1 and isinstance(a.targets[0], ast.Name)):
+        raise err
+    v = a.targets[0].id
+    key = info_key(a.value)
+    if not (isinstance(i, ast.If) and not i.orelse and isinstance(i.test, ast.Name) and i.test.id == v and len(i.body) == 1
+            and isinstance(i.body[0], ast.Return) and isinstance(i.body[0].value, ast.Name) and i.body[0].value.id == v):
+        raise err
+    if not (isinstance(loop, ast.For) and not loop.orelse and isinstance(loop.target, ast.Name)
+            and _is_self_attr(loop.iter, "_objects") and len(loop.body) == 1 and isinstance(loop.body[0], ast.If)
+            and not loop.body[0].orelse and len(loop.body[0].body) == 1 and isinstance(loop.body[0].body[0], ast.Return)):
+        raise err
+    obj = loop.target.id
+    if obj == v:
+        raise err
+    test = loop.body[0].test
+    if not (isinstance(test, ast.BoolOp) and isinstance(test.op, ast.And) and len(test.values) == 2):
+        raise err
+    t = test.values[0]
+    if not (isinstance(t, ast.Call) and isinstance(t.func, ast.Name) and t.func.id == "isinstance" and len(t.args) == 2
+            and isinstance(t.args[0], ast.Name) and t.args[0].id == obj
+            and isinstance(t.args[1], ast.Name) and t.args[1].id == "XYObjectOnPlot"):
+        raise TranslateError(PL, t, "{}: candidates are not the XYObjectOnPlot instances".format(name))
+
+    def obj_attr(e):
+        if isinstance(e, ast.Attribute) and isinstance(e.value, ast.Name) and e.value.id == obj and e.attr in ATTRS:
+            return e.attr
+        # getattr(obj, "A") with the attribute name known statically (a string literal after inlining)
+        if isinstance(e, ast.Call) and isinstance(e.func, ast.Name) and e.func.id == "getattr" and len(e.args) == 2 \
+                and not e.keywords and isinstance(e.args[0], ast.Name) and e.args[0].id == obj \
+                and isinstance(e.args[1], ast.Constant) and e.args[1].value in ATTRS:
+            return e.args[1].value
+        raise TranslateError(PL, e, "{}: attribute of the object cannot be resolved statically".format(name))
+    a1, a2 = obj_attr(test.values[1]), obj_attr(loop.body[0].body[0].value)
+    if a1 != a2:
+        raise TranslateError(PL, loop, "{}: yields {} but filters on {}".format(name, a2, a1))
+    if not (isinstance(r, ast.Return) and isinstance(r.value, ast.Constant) and r.value.value == ""):
+        raise TranslateError(PL, r, "{}: default is not the empty string".format(name))
+    if key not in lits:
+        raise TranslateError(PL, a, "{}: unknown literal lit.{}".format(name, key))
+    return lits[key], a1
 
 
 def name_source(cls, name, lits):
@@ -305,15 +376,17 @@ def name_source(cls, name, lits):
        xy_objects = (obj for obj in self._objects if isinstance(obj, XYObjectOnPlot))
        return next((obj.A for obj in xy_objects if obj.A), "")"""
     fn = _method(cls, PL, name)
-    body = _body(fn)
+    body = _inlined_body(cls, PL, fn)
     err = TranslateError(PL, fn, "{}: not of the shape override / first XY object with a non-empty attribute".format(name))
-    if len(body) != 3:
-        raise err
 
     def info_key(e):
         if isinstance(e, ast.Subscript) and _is_self_attr(e.value, "_plot_info") and isinstance(e.slice, ast.Attribute) \
                 and isinstance(e.slice.value, ast.Name) and e.slice.value.id == "lit":
             return e.slice.attr
+        raise err
+    if len(body) == 4:
+        return _name_source_loop(body, name, lits, info_key, err)
+    if len(body) != 3:
         raise err
     i, a, r = body
     if not (isinstance(i, ast.If) and not i.orelse and len(i.body) == 1 and isinstance(i.body[0], ast.Return)):
